@@ -619,6 +619,9 @@ func run(dir string, seed uint64, tier string) error {
 	call("readReleaseData", byName["readReleaseData"].run, []byte("A="+strings.Repeat("x", 1<<20)), dl)
 	call("expandapk.Split", byName["expandapk.Split"].run, tgz([2]string{".PKGINFO", strings.Repeat("pkgname = a\n", 100000)}), dl)
 
+	// ---- archive/tar's contract behind the bound on the tar loops (Go only)
+	tarContractProbe(r, tier)
+
 	// ---- crashes recover cannot catch: child processes. Both probes must exit normally since fix f716198
 	// (sortTarHeaders skips the "./" entry); before it: finding C15-F4, the tag stays armed ---------------------------
 	for _, probe := range []string{"sort-dot", "install-dot"} {
